@@ -27,7 +27,7 @@ for f in conf:
             if k not in mo.PROPS:
                 text += "\nPROPS[%r] = %s\n" % (k, pprint.pformat(mt.PROPS[k], width=150, sort_dicts=False))
         open(p, "w").write(text)
-    elif f in ("MANIFEST.json",) or f.startswith("evidence/"):
+    elif f in ("MANIFEST.json", "lean/spans.json", "seeded/results.json", "seeded/RESULTS.md") or f.startswith("evidence/"):
         open(p, "w").write(sh("git", "show", ":2:" + f))
     else:
         # textual union: keep ours then theirs inside each conflict hunk, dropping duplicate lines
